@@ -356,7 +356,7 @@ class Unit:
             # identifier changes; the emitted name is also the key that `only = [..]` of [[rewrite]] entries refers to.
             tname = ty.get("as", ty["name"])
             if ty.get("as"):
-                text = re.sub(r"\b(struct|enum)\s+" + re.escape(ty["name"]) + r"\b", r"\1 " + ty["as"], text, count=1)
+                text = re.sub(r"\b(struct|enum|const|static)\s+" + re.escape(ty["name"]) + r"\b", r"\1 " + ty["as"], text, count=1)
                 self._log("R4-typemap", tname, 1, f"type {ty['name']} of crate {ty['crate']} is emitted as {ty['as']} (name clash between crates)")
             text = self.rewrite_common(text, tname)
             if ty.get("derive"):
